@@ -442,6 +442,20 @@ class NativeNovelOrf(NativeCheck):
                 return dict(observed=dict(orf=h, listed=s), expected=f'ORF from the M at {a} to the next stop or transcript end')
         if not used <= listed:
             return dict(observed=dict(attributed_but_not_listed=sorted(used - listed)[:5]), expected='ORF FASTA lists the ORFs the peptides are attributed to')
+        # a peptide is a digestion product of the ORF it is attributed to: it occurs in the listed sequence of that ORF (W>F forms aside)
+        by_id = {}
+        for h, s in orf.items():
+            tx_id, gene_id, orf_id, rng_ = h.split('|')
+            by_id[(tx_id, orf_id)] = s
+        for h, seq_ in pep.items():
+            for ent in h.split(' '):
+                f = ent.split('|')
+                if any(x.startswith('W2F-') for x in f):
+                    continue
+                oid = [x for x in f if x.startswith('ORF')][0]
+                if seq_ not in by_id.get((f[0], oid), ''):
+                    return dict(observed=dict(peptide=seq_, entry=ent, orf=by_id.get((f[0], oid))), expected='the peptide occurs in the ORF it is attributed to',
+                                signature='peptide-attributed-to-an-orf-that-does-not-contain-it')
         return None
 
     def _canon(self, rule, exc, mc):
